@@ -25,7 +25,8 @@ TECHNIQUE = ("runtime monitoring: per-task receive attribution at the shared str
 LEVEL_TEXT = ("2-4 real send_message callers share one (read, write) pair on a virtual-time loop; all "
               "answer permutations x notification interleavings x answer times around poll boundaries "
               "are executed and each message is attributed to the task whose receive() consumed it. "
-              "Held/known-finding = on the schedules explored.")
+              "Held/known-finding = on the schedules explored."
+              " Also a second connection whose callers use the same ids, and the per-request routing API of the stdio client on one and two connections.")
 LEVEL_NOTE = ("Trusted: virtual-time loop, anyio memory streams' FIFO waiter order, the oracle. The loss of "
               "out-of-order answers (consumed and discarded by another waiter) is a recorded known finding; "
               "every other loss mechanism and any cross-talk is a violation.")
